@@ -6,7 +6,7 @@
       announced parts; once an announced part is gone nothing is claimed any more
       ([claim_amount_is_announced]).
     Both by induction over operation lists. *)
-From LdkV Require Import Prim.U64 Prim.Rs2vLib Gen.Consts Gen.ConstsC04 Gen.InboundChecks Model.Inbound Proofs.C04b.
+From LdkV Require Import Prim.U64 Prim.Rs2vLib Gen.Consts Gen.ConstsC04 Gen.InboundChecks Model.InboundSecret Model.Inbound Proofs.C04b.
 Open Scope Z_scope.
 
 (** * a complete set is not touched by a tick (the test is on the sender-intended amounts) *)
@@ -389,3 +389,51 @@ Qed.
 
 Lemma reachable_sorted h ops : sorted (claimable (fst (run (init h) ops))).
 Proof. apply run_sorted. apply init_sorted. Qed.
+
+(** * what acceptance of a part implies (the thresholds are the regenerated ones) *)
+Lemma recv_accepted_window s hash pid onion_cltv cltv value intended fl purpose auth min_cltv sk up :
+  (forall r, ~ In (OFailPart pid r) (snd (step s (Recv hash pid onion_cltv cltv value intended fl purpose auth min_cltv sk up)))) ->
+  auth = true /\ onion_cltv <= cltv /\
+  height s + HTLC_FAIL_BACK_BUFFER + 2 <= cltv /\
+  (forall d, min_cltv = Some d -> height s + d <= cltv) /\
+  final_hop_underpaid up intended value sk = false.
+Proof.
+  intros Hno. cbn [step] in Hno. unfold recv in Hno. checks.
+  destruct (Z.ltb_spec cltv onion_cltv); [exfalso; eapply Hno; left; reflexivity|].
+  destruct (Z.leb_spec cltv (height s + HTLC_FAIL_BACK_BUFFER + 1)); [exfalso; eapply Hno; left; reflexivity|].
+  destruct (final_hop_underpaid up intended value sk) eqn:Eu; [exfalso; eapply Hno; left; reflexivity|].
+  destruct auth; cbn [negb] in Hno; [|exfalso; eapply Hno; left; reflexivity].
+  destruct min_cltv as [d|].
+  - destruct (Z.ltb_spec cltv (height s + d)); [exfalso; eapply Hno; left; reflexivity|].
+    repeat split; try lia. intros d0 [= <-]. lia.
+  - repeat split; try lia. intros d0 [=].
+Qed.
+
+(** the numeric half of [inbound_payment::verify]: the committed total reaches the registered minimum
+    and the payment is not expired by more than the ONE grace period [calculate_absolute_expiry] adds *)
+Lemma verify_numeric_ok_spec total min_amt t0 delta now :
+  verify_numeric_ok total min_amt t0 delta now = true <->
+  min_amt <= total /\ now <= t0 + delta + 7200.
+Proof.
+  unfold verify_numeric_ok, verify_amount_too_low, verify_expired, calculate_absolute_expiry.
+  rewrite andb_true_iff, !negb_true_iff, !Z.ltb_ge. tauto.
+Qed.
+
+(** a keysend HTLC only counts as authentic if its preimage hashes to the payment hash *)
+Lemma keysend_claimable_needs_matching_preimage s hash A d pid onion_cltv cltv value intended fl purpose ks v min_cltv sk up :
+  In (OClaimable hash A d)
+     (snd (step s (Recv hash pid onion_cltv cltv value intended fl purpose (recv_auth ks v) min_cltv sk up))) ->
+  match ks with Some hash_matches => hash_matches = true | None => v = true end.
+Proof.
+  intros Hin. destruct (claimable_only_if_complete s _ hash A d Hin)
+    as (pid' & oc' & cltv' & value' & intended' & fl' & purpose' & mc' & sk' & up' & e' & Ho & _).
+  injection Ho as _ _ _ _ _ _ _ Ha _ _ _. destruct ks as [m|]; cbn [recv_auth] in Ha; exact Ha.
+Qed.
+
+(** the hand model of part A (Model/InboundSecret.v) writes the expiry computation and the two numeric
+    comparisons of [verify] by hand; they are the regenerated ones *)
+Lemma secret_model_pins :
+  (forall now delta, LdkV.Model.InboundSecret.absolute_expiry now delta = calculate_absolute_expiry now delta) /\
+  (forall total a, (total <? a) = verify_amount_too_low total a) /\
+  (forall e now, (e <? now) = verify_expired e now).
+Proof. repeat split. Qed.
